@@ -8,27 +8,79 @@ return value.  A generated sequence of 1-4 requests (HTTP/1.0 and 1.1,
 keep-alive / close, pipelined in one write or spaced over cycles) is sent on one
 connection under a kernel script of partial sends.
 
+Also generated: the request byte stream cut into segments anywhere (inside a
+head, between head and body, inside a body, at request boundaries) with service
+cycles in between; chunked request bodies; HEAD requests and 204 / 304 statuses
+(the applications give those no body); body pieces handed to the write() callable
+that start_response returns (PEP 3333) instead of being yielded; and a
+start_response call that is replaced by a second one with exc_info before
+anything was handed over (PEP 3333: the application's output is then the second
+status / headers).
+
 Oracle: the bytes the peer received are parsed by an independent strict response
-parser (vlib/memhttp.py).  While the connection stays open every response must
-be delimited (Content-Length or chunked); responses come in request order; each
-equals the application's status, headers (subset) and b"".join(pieces),
-truncated to a declared Content-Length; the server closes the connection after a
-response exactly when that request was not persistent.
+parser (parse_stream below: the parser of vlib/memhttp.py made aware of the
+request methods, because RFC 7230 3.3.3 makes every client treat a response to
+HEAD and a 1xx / 204 / 304 response as having no body whatever its header fields
+say).  While the connection stays open every response must be delimited
+(Content-Length or chunked); responses come in request order; each equals the
+application's status, headers (subset; none of a replaced start_response call)
+and b"".join(pieces), truncated to a declared Content-Length; the server closes
+the connection after a response exactly when that request was not persistent.
 """
+import sys
+
 from hypothesis import strategies as st
 
 from vlib import httpgen, memhttp
 from vlib.core import Result
 
 PID = "C18"
-RULE = ("cases: 1-4 requests on one connection (HTTP/1.0 / 1.1, Connection close / keep-alive / none, GET or POST with body, "
-        "one write or spaced over cycles) x application behaviour per request (status, headers, Content-Length none / exact "
-        "/ smaller than body, 0-4 body pieces incl. empty ones, list / generator / generator-with-return) x server-side "
+RULE = ("cases: 1-4 requests on one connection (HTTP/1.0 / 1.1, Connection close / keep-alive / none, GET, HEAD or POST with body "
+        "(Content-Length or chunked), one write / spaced over cycles / byte stream cut into segments inside heads and bodies) x "
+        "application behaviour per request (status incl. 204 / 304, headers, Content-Length none / exact "
+        "/ smaller than body, 0-4 body pieces incl. empty ones, list / generator / generator-with-return, pieces yielded or "
+        "given to the write() callable, optional replaced start_response(exc_info)) x server-side "
         "partial-send script. non-trivial = >= 2 requests answered on the connection and at least one response without "
         "Content-Length; distinct = canonical hash of the case")
 ASSUMPTIONS = ["persistence per RFC 7230 as the server documents it: HTTP/1.1 persistent unless 'close', HTTP/1.0 only with "
                "keep-alive", "applications never declare a Content-Length larger than the body they produce",
-               "HEAD requests are not generated"]
+               "applications produce no body bytes for HEAD requests and 204 / 304 statuses (and no Content-Length with 204)",
+               "bytes after a bodiless (HEAD / 204 / 304) response are only judged while the connection stays open",
+               "start_response is called a second time only with exc_info and only before any body piece was handed over"]
+
+BODILESS_STATUS = (204, 304)
+
+
+def status_code(spec):
+    return int(spec["status"].split()[0])
+
+
+def bodiless(req):
+    """Responses that by definition have no body: to HEAD, and 1xx / 204 / 304."""
+    code = status_code(req["app"])
+    return req["method"] == "HEAD" or code in BODILESS_STATUS or 100 <= code < 200
+
+
+def via_of(spec):
+    via = list(spec.get("via") or [])
+    return via + [0] * (len(spec["pieces"]) - len(via))
+
+
+def produced_body(spec):
+    """The bytes the application hands over, in the order it hands them over."""
+    pairs = list(zip(spec["pieces"], via_of(spec)))
+    if spec["shape"] == "list":       # written pieces go out while the application runs, the list is iterated afterwards
+        body = b"".join(p for p, w in pairs if w) + b"".join(p for p, w in pairs if not w)
+    else:
+        body = b"".join(spec["pieces"])
+    return body + (spec["ret"] if spec["shape"] == "genret" else b"")
+
+
+def expected_body(spec):
+    body = produced_body(spec)
+    if isinstance(spec["cl"], int):
+        body = body[:max(0, len(body) - spec["cl"])]
+    return body
 
 
 def make_app(table):
@@ -36,18 +88,41 @@ def make_app(table):
         k = int(environ.get("HTTP_X_REQ", "0"))
         spec = table[k]
         hdrs = [(n, v) for n, v in spec["headers"]]
-        body = b"".join(spec["pieces"]) + (spec["ret"] if spec["shape"] == "genret" else b"")
+        body = produced_body(spec)
         if spec["cl"] == "exact":
             hdrs.append(("Content-Length", str(len(body))))
         elif isinstance(spec["cl"], int):
             hdrs.append(("Content-Length", str(max(0, len(body) - spec["cl"]))))
-        start_response(spec["status"], hdrs)
+        first = spec.get("restart")
+        if first:
+            # PEP 3333: start_response may be called again, with exc_info, as long as no headers went out;
+            # the application's output is then what the last call said
+            fh = [(n, v) for n, v in first["headers"]]
+            if first.get("cl") is not None:
+                fh.append(("Content-Length", str(first["cl"])))
+            start_response(first["status"], fh)
+            try:
+                raise RuntimeError("application changes its mind")
+            except RuntimeError:
+                write = start_response(spec["status"], hdrs, sys.exc_info())
+        else:
+            write = start_response(spec["status"], hdrs)
+        pairs = list(zip(spec["pieces"], via_of(spec)))
         if spec["shape"] == "list":
-            return list(spec["pieces"])
+            out = []
+            for p, w in pairs:
+                if w:
+                    write(p)
+                else:
+                    out.append(p)
+            return out
 
         def gen():
-            for p in spec["pieces"]:
-                yield p
+            for p, w in pairs:
+                if w:
+                    write(p)
+                else:
+                    yield p
             if spec["shape"] == "genret":
                 return spec["ret"]
         return gen()
@@ -61,19 +136,147 @@ def persistent(req):
     return "keep-alive" in conn
 
 
+def chunked_request(req):
+    return bool(req.get("chunked")) and req["method"] == "POST" and req["ver"] == "1.1"
+
+
 def build_request(k, req):
+    """-> (wire bytes, length of the head)."""
     lines = ["%s /r%d HTTP/%s" % (req["method"], k, req["ver"]), "Host: x", "X-Req: %d" % k]
     if req["conn"]:
         lines.append("Connection: %s" % req["conn"])
     body = req["body"] if req["method"] == "POST" else b""
-    if body:
+    if chunked_request(req):
+        lines.append("Transfer-Encoding: chunked")
+        n = max(1, int(req.get("csize", 8)))
+        body = b"".join(b"%x\r\n%s\r\n" % (len(body[i:i + n]), body[i:i + n]) for i in range(0, len(body), n)) + b"0\r\n\r\n"
+    elif body:
         lines.append("Content-Length: %d" % len(body))
-    return ("\r\n".join(lines) + "\r\n\r\n").encode("latin-1") + body
+    head = ("\r\n".join(lines) + "\r\n\r\n").encode("latin-1")
+    return head + body, len(head)
+
+
+def plan(case, built):
+    """The client's sends: [(bytes, service cycles afterwards)]."""
+    wire = [w for w, _h in built]
+    gaps = case["gaps"]
+    if case["delivery"] == "one-write":
+        return [(b"".join(wire), 1)]
+    if case["delivery"] == "spaced":
+        return [(w, 1 + gaps[k % len(gaps)]) for k, w in enumerate(wire)]
+    # "segmented": the byte stream of all requests, cut where the requests say (offsets relative to the end of their head)
+    cuts = set()
+    pos = 0
+    for q, (w, hl) in zip(case["reqs"], built):
+        if q.get("sep") and pos:
+            cuts.add(pos)
+        for off in q.get("cut") or []:
+            c = pos + hl + off
+            if pos < c < pos + len(w):
+                cuts.add(c)
+        pos += len(w)
+    stream = b"".join(wire)
+    edges = [0] + sorted(cuts) + [len(stream)]
+    return [(stream[a:b], 1 + gaps[i % len(gaps)]) for i, (a, b) in enumerate(zip(edges, edges[1:]))]
+
+
+def parse_stream(data, eof, methods):
+    """Strictly parse a byte stream of HTTP/1.x responses the way a client that knows the methods of its requests has
+    to (memhttp.parse_responses plus RFC 7230 3.3.3 rule 1: a response to HEAD and a 1xx / 204 / 304 response end with
+    their head whatever their header fields say).
+    Returns (responses, leftover, problem). Each response: dict(status, reason, headers(list), body, framing).
+    framing in {"length", "chunked", "close", "none"}; "none" = no body by definition; a close-delimited response
+    consumes everything and needs eof."""
+    out = []
+    pos = 0
+    n = len(data)
+    while pos < n:
+        he = data.find(b"\r\n\r\n", pos)
+        if he < 0:
+            if out and out[-1]["framing"] == "none":
+                return out, bytes(data[pos:]), "bytes after bodiless response: %r" % bytes(data[pos:pos + 40])
+            return out, bytes(data[pos:]), "incomplete head"
+        head = bytes(data[pos:he]).split(b"\r\n")
+        sl = head[0].split(b" ", 2)
+        if len(sl) < 2 or not sl[0].startswith(b"HTTP/1.") or not sl[1].isdigit() or len(sl[1]) != 3:
+            if out and out[-1]["framing"] == "none":
+                return out, bytes(data[pos:]), "bytes after bodiless response: %r" % bytes(data[pos:pos + 40])
+            return out, bytes(data[pos:]), "bad status line %r" % head[0][:60]
+        hdrs = []
+        for ln in head[1:]:
+            if b":" not in ln:
+                return out, bytes(data[pos:]), "bad header line %r" % ln[:60]
+            k, v = ln.split(b":", 1)
+            hdrs.append((k.decode("latin-1").strip().lower(), v.decode("latin-1").strip()))
+        hd = dict(hdrs)
+        body_start = he + 4
+        resp = {"status": int(sl[1]), "reason": sl[2].decode("latin-1") if len(sl) > 2 else "", "headers": hdrs}
+        method = methods[len(out)] if len(out) < len(methods) else "GET"
+        if method == "HEAD" or resp["status"] in BODILESS_STATUS or 100 <= resp["status"] < 200:
+            resp["body"] = b""
+            resp["framing"] = "none"
+            pos = body_start
+        elif hd.get("transfer-encoding", "").lower() == "chunked":
+            p = body_start
+            body = bytearray()
+            while True:
+                le = data.find(b"\r\n", p)
+                if le < 0:
+                    return out, bytes(data[pos:]), "incomplete chunk size"
+                size_s = bytes(data[p:le]).split(b";")[0]
+                if not size_s or any(c not in b"0123456789abcdefABCDEF" for c in size_s):
+                    return out, bytes(data[pos:]), "bad chunk size %r" % size_s[:20]
+                size = int(size_s, 16)
+                p = le + 2
+                if size == 0:
+                    # trailers until blank line
+                    while True:
+                        te = data.find(b"\r\n", p)
+                        if te < 0:
+                            return out, bytes(data[pos:]), "incomplete trailer"
+                        line = data[p:te]
+                        p = te + 2
+                        if not line:
+                            break
+                    break
+                if p + size + 2 > n:
+                    return out, bytes(data[pos:]), "incomplete chunk"
+                body.extend(data[p:p + size])
+                if data[p + size:p + size + 2] != b"\r\n":
+                    return out, bytes(data[pos:]), "chunk not terminated by CRLF"
+                p += size + 2
+            resp["body"] = bytes(body)
+            resp["framing"] = "chunked"
+            pos = p
+        elif "content-length" in hd:
+            try:
+                ln = int(hd["content-length"])
+            except ValueError:
+                return out, bytes(data[pos:]), "bad content-length"
+            if body_start + ln > n:
+                return out, bytes(data[pos:]), "incomplete body (%d of %d)" % (n - body_start, ln)
+            resp["body"] = bytes(data[body_start:body_start + ln])
+            resp["framing"] = "length"
+            pos = body_start + ln
+        else:
+            resp["body"] = bytes(data[body_start:])
+            resp["framing"] = "close"
+            pos = n
+            out.append(resp)
+            if not eof:
+                return out, b"", "undelimited response on an open connection"
+            return out, b"", None
+        out.append(resp)
+    return out, b"", None
 
 
 def run_case(case):
     r = Result()
     reqs = case["reqs"]
+    for q in reqs:       # outside the quantified domain (see ASSUMPTIONS): nothing to judge
+        if bodiless(q) and (produced_body(q["app"]) or (status_code(q["app"]) == 204 and q["app"]["cl"] is not None)):
+            r.labels.append("out-of-domain")
+            return r
     table = [q["app"] for q in reqs]
     rig = memhttp.Rig(app=make_app(table), bs=64, tymeout=100000.0)   # idle timeouts are C12's business, keep them out of reach
     port = rig.connect()
@@ -81,18 +284,14 @@ def run_case(case):
     ss = rig.ssock(port)
     if ss is not None:
         ss.send_script = [list(t) for t in case["script"]]
-    wire = [build_request(k, q) for k, q in enumerate(reqs)]
+    built = [build_request(k, q) for k, q in enumerate(reqs)]
     try:
-        if case["delivery"] == "one-write":
-            rig.send(port, b"".join(wire))
-            rig.cycle()
-        else:
-            for k, w in enumerate(wire):
-                if rig.eof[port]:
-                    break
-                rig.send(port, w)
-                for _ in range(1 + case["gaps"][k % len(case["gaps"])]):
-                    rig.cycle()
+        for seg, cycles in plan(case, built):
+            if rig.eof[port]:
+                break
+            rig.send(port, seg)
+            for _ in range(cycles):
+                rig.cycle()
         for _ in range(60):
             rig.cycle()
     except Exception as ex:      # noqa: BLE001
@@ -100,41 +299,52 @@ def run_case(case):
         return fin(r, case, 0)
     data = bytes(rig.rx[port])
     eof = rig.eof[port]
-    resps, left, problem = memhttp.parse_responses(data, eof)
+    resps, left, problem = parse_stream(data, eof, [q["method"] for q in reqs])
     # expected number of answers: up to and including the first non-persistent request
     cut = next((i for i, q in enumerate(reqs) if not persistent(q)), None)
     nexp = len(reqs) if cut is None else cut + 1
+    if problem and problem.startswith("bytes after bodiless"):
+        k = len(resps) - 1
+        q = reqs[min(k, len(reqs) - 1)]
+        if eof and k == nexp - 1 and not persistent(q):
+            problem = None       # after the last response of a connection the server closed: no later response to confuse
+            r.labels.append("bytes-after-last-bodiless-response-then-close")
+        else:
+            r.fail("C18/bytes-after-bodiless-response(HEAD/204/304)",
+                   "response #%d (%s request, status %d) has no body by definition but is followed by %s; %d responses "
+                   "expected, eof=%r" % (k, q["method"], resps[k]["status"], problem.split(": ", 1)[1], nexp, eof))
+            return fin(r, case, len(resps))
     if problem:
         k = len(resps) - 1 if problem.startswith("undelimited") else len(resps)
         q = reqs[min(k, len(reqs) - 1)]
         sig = "C18/undelimited-response-on-open-connection" if problem.startswith("undelimited") else "C18/unparsable-response-stream"
         if problem.startswith("undelimited"):
-            if q["ver"] == "1.0":
-                sig += "(HTTP/1.0 keep-alive without Content-Length)"
-            elif k >= 1:
-                sig += "(second or later response on the connection)"
+            sig += undelimited_kind(q, k)
+        elif resps and resps[-1]["framing"] == "chunked" and uses_write_empty(reqs[min(len(resps) - 1, len(reqs) - 1)]["app"]):
+            sig += "(after a chunked response with an empty piece given to write())"
         r.fail(sig, "%s; response #%d of %d expected, eof=%r, request %r" % (problem, k, nexp, eof, {a: q[a] for a in ("ver", "conn")}))
         return fin(r, case, len(resps))
     for k, resp in enumerate(resps[:len(reqs)]):
         if resp["framing"] == "close" and persistent(reqs[k]):
             q = reqs[k]
-            sig = "C18/undelimited-response-on-open-connection"
-            if q["ver"] == "1.0":
-                sig += "(HTTP/1.0 keep-alive without Content-Length)"
-            elif k >= 1:
-                sig += "(second or later response on the connection)"
+            sig = "C18/undelimited-response-on-open-connection" + undelimited_kind(q, k)
             r.fail(sig, "response %d has neither Content-Length nor chunked coding although request %r keeps the connection open" % (
                 k, {a: q[a] for a in ("ver", "conn")}))
             return fin(r, case, len(resps))
     if len(resps) != nexp:
-        r.fail("C18/response-count", "%d responses for %d answerable requests (eof=%r, leftover %r)" % (len(resps), nexp, eof, left[:40]))
+        if eof and 1 <= len(resps) < nexp:
+            k = len(resps) - 1
+            r.fail("C18/closed-before-answering-next-request",
+                   "request %d was persistent (%r) and %d requests were to be answered, but the server closed the connection "
+                   "after response %d (leftover %r)" % (k, {a: reqs[k][a] for a in ("ver", "conn")}, nexp, k, left[:40]))
+        else:
+            r.fail("C18/response-count", "%d responses for %d answerable requests (eof=%r, leftover %r)" % (
+                len(resps), nexp, eof, left[:40]))
         return fin(r, case, len(resps))
     for k, (resp, q) in enumerate(zip(resps, reqs)):
         spec = q["app"]
-        want_status = int(spec["status"].split()[0])
-        body = b"".join(spec["pieces"]) + (spec["ret"] if spec["shape"] == "genret" else b"")
-        if isinstance(spec["cl"], int):
-            body = body[:max(0, len(body) - spec["cl"])]
+        want_status = status_code(spec)
+        body = b"" if bodiless(q) else expected_body(spec)
         if resp["status"] != want_status:
             r.fail("C18/status", "response %d status %d, application said %d (responses out of order?)" % (k, resp["status"], want_status))
             break
@@ -143,6 +353,13 @@ def run_case(case):
         if miss:
             r.fail("C18/headers", "response %d lacks application headers %r (got %r)" % (k, miss[:3], resp["headers"][:6]))
             break
+        if spec.get("restart"):
+            mine = {n.lower() for n, _v in spec["headers"]}
+            stale = [n for n, _v in spec["restart"]["headers"] if n.lower() in hd and n.lower() not in mine]
+            if stale:
+                r.fail("C18/headers-of-replaced-start_response",
+                       "response %d carries %r of the start_response call the application replaced" % (k, stale[:3]))
+                break
         if resp["body"] != body:
             sig = "C18/body-exceeds-content-length" if len(resp["body"]) > len(body) and isinstance(spec["cl"], int) else "C18/body"
             r.fail(sig, "response %d body %r, application produced %r (framing %s)" % (k, resp["body"][:60], body[:60], resp["framing"]))
@@ -160,40 +377,99 @@ def run_case(case):
     return fin(r, case, len(resps))
 
 
+def uses_write_empty(spec):
+    return any(w and not p for p, w in zip(spec["pieces"], via_of(spec)))
+
+
+def undelimited_kind(q, k):
+    if q["ver"] == "1.0":
+        return "(HTTP/1.0 keep-alive without Content-Length)"
+    if q["app"].get("restart"):
+        return "(start_response replaced by a second call with exc_info)"
+    if k >= 1:
+        return "(second or later response on the connection)"
+    return ""
+
+
 def fin(r, case, nresp):
-    nocl = any(q["app"]["cl"] is None for q in case["reqs"][:max(nresp, 1)])
+    reqs = case["reqs"]
+    nocl = any(q["app"]["cl"] is None for q in reqs[:max(nresp, 1)])
     r.nontrivial = nresp >= 2 and nocl
     r.labels.append("responses=%d" % min(nresp, 4))
     r.labels.append("delivery:" + case["delivery"])
     if nocl:
         r.labels.append("response-without-content-length")
-    if any(q["ver"] == "1.0" and persistent(q) for q in case["reqs"]):
+    if any(q["ver"] == "1.0" and persistent(q) for q in reqs):
         r.labels.append("http1.0-keep-alive")
+    if any(bodiless(q) for q in reqs):
+        r.labels.append("bodiless-response(HEAD/204/304)")
+    if any(any(via_of(q["app"])) for q in reqs):
+        r.labels.append("write-callable")
+    if any(uses_write_empty(q["app"]) for q in reqs):
+        r.labels.append("write-callable-empty-piece")
+    if any(q["app"].get("restart") for q in reqs):
+        r.labels.append("start_response-replaced")
+    if any(chunked_request(q) for q in reqs):
+        r.labels.append("chunked-request-body")
+    if case["delivery"] == "segmented":
+        built = [build_request(k, q) for k, q in enumerate(reqs)]
+        if len(plan(case, built)) > 1:
+            r.labels.append("request-stream-cut")
+        if any(0 <= off < len(w) - hl for q, (w, hl) in zip(reqs, built) for off in q.get("cut") or []):
+            r.labels.append("request-cut-between-head-and-end-of-body")
     return r
+
+
+# ------------------------------------------------------------------ generation
+
+HEADER = st.tuples(httpgen.header_name().map(lambda n: "X-" + n),
+                   st.text(alphabet="abcdefghijklmnopqrstuvwxyz0123456789 ;=/", max_size=12).map(str.strip)).map(list)
 
 
 def app_spec(clean=False):
     cl = st.sampled_from(["exact", "exact", None, None, 1, 3]) if not clean else st.sampled_from(["exact", "exact", 1, 2])
+    restart = st.fixed_dictionaries({
+        "status": st.sampled_from(["200 OK", "202 Accepted"]),
+        "headers": st.lists(HEADER.map(lambda h: ["X-Old-" + h[0][2:], h[1]]), max_size=2, unique_by=lambda h: h[0].lower()),
+        "cl": st.one_of(st.none(), st.integers(0, 40))})
     return st.fixed_dictionaries({
-        "status": st.sampled_from(["200 OK", "201 Created", "404 Not Found", "500 Internal Server Error"]),
-        "headers": st.lists(st.tuples(httpgen.header_name().map(lambda n: "X-" + n),
-                                      st.text(alphabet="abcdefghijklmnopqrstuvwxyz0123456789 ;=/", max_size=12).map(str.strip))
-                            .map(list), max_size=3, unique_by=lambda h: h[0].lower()),
+        "status": st.sampled_from(["200 OK", "200 OK", "201 Created", "404 Not Found", "500 Internal Server Error",
+                                   "200 OK", "204 No Content", "304 Not Modified"]),
+        "headers": st.lists(HEADER, max_size=3, unique_by=lambda h: h[0].lower()),
         "cl": cl,
         "pieces": st.lists(st.one_of(st.just(b""), st.binary(min_size=1, max_size=40)), max_size=4),
         "shape": st.sampled_from(["list", "gen", "genret"]),
-        "ret": st.binary(max_size=10)})
+        "ret": st.binary(max_size=10),
+        "via": st.one_of(st.just([]), st.just([]), st.lists(st.integers(0, 1), max_size=4)),
+        "restart": st.one_of(st.none(), st.none(), st.none(), restart)})
 
 
-def case_strategy(clean=False):
+def in_domain(req):
+    """Applications give HEAD requests and 204 / 304 statuses no body (their pieces become empty ones)."""
+    if bodiless(req):
+        app = dict(req["app"])
+        app["pieces"] = [b"" for _p in app["pieces"]]
+        app["ret"] = b""
+        if app["cl"] != "exact" or status_code(app) == 204:
+            app["cl"] = None
+        req = dict(req, app=app)
+    return req
+
+
+def case_strategy(clean=False, segmented=False):
     req = st.fixed_dictionaries({
         "ver": st.sampled_from(["1.1", "1.1", "1.1", "1.0"]),
         "conn": st.sampled_from([None, None, None, "keep-alive", "Keep-Alive", "keep-alive", "close"]),
-        "method": st.sampled_from(["GET", "POST"]), "body": st.binary(max_size=30),
-        "app": app_spec(clean)})
+        "method": st.sampled_from(["GET", "POST", "GET", "POST", "GET", "POST", "HEAD"]), "body": st.binary(max_size=30),
+        "app": app_spec(clean),
+        "chunked": st.sampled_from([False, False, True]), "csize": st.integers(1, 12),
+        # where the client's byte stream is cut, relative to the end of this request's head (< 0: inside the head)
+        "cut": st.lists(st.one_of(st.integers(0, 12), st.integers(-60, 60)), max_size=2),
+        "sep": st.booleans()}).map(in_domain)
     tok = st.one_of(st.tuples(st.just("accept"), st.integers(1, 50)), st.tuples(st.just("block"))).map(list)
+    delivery = st.just("segmented") if segmented else st.sampled_from(["one-write", "spaced", "segmented"])
     return st.fixed_dictionaries({"reqs": st.one_of(st.lists(req, min_size=1, max_size=4), st.lists(req, min_size=2, max_size=4)),
-                                  "delivery": st.sampled_from(["one-write", "spaced"]),
+                                  "delivery": delivery,
                                   "gaps": st.lists(st.integers(0, 3), min_size=1, max_size=4),
                                   "script": st.lists(tok, max_size=10)})
 
@@ -202,4 +478,6 @@ def searches(tier):
     q = tier == "quick"
     return [("apps", case_strategy(), 1500 if q else 12000),
             # every response declares a Content-Length: explores ordering / closing behind the framing findings
-            ("apps-with-content-length", case_strategy(clean=True), 700 if q else 6000)]
+            ("apps-with-content-length", case_strategy(clean=True), 700 if q else 6000),
+            # requests arriving piecemeal: what the server decides between the segments of one request
+            ("segmented-requests", case_strategy(clean=True, segmented=True), 500 if q else 4000)]
